@@ -240,6 +240,28 @@ def run(ctx):
         inner = v.args[0] if isinstance(v, ast.Call) and call_name(v) in ("list", "sorted", "tuple") and len(v.args) == 1 else v
         ogs = value_origins(cl_, n_.id, inner, params=ltp.params) if isinstance(inner, ast.Name) else [(n_.id, inner)]
         oksn = oksn and bool(ogs) and all(norm(e_) in ("self.topic_partitions[%s]" % key_, "self.topic_partitions.get(%s)" % key_) for _d, e_ in ogs)
+    # ... for every topic that was asked about: the loop that fills the map runs over the requested names (the parameter,
+    # possibly coerced), not over whatever the reply chose to list
+    cover_ok, cover_why = bool(snaps), "no loop fills the snapshot"
+    vararg = ltp.node.args.vararg.arg if ltp.node.args.vararg is not None else (ltp.params[1] if len(ltp.params) > 1 else None)
+    for n_, t, v in snaps:
+        loops_ = [m_ for m_ in cl_.nodes if m_.kind == "for" and n_.id in cl_.reach([t2 for t2, lab in cl_.succ[m_.id] if lab == ("iter", True)], avoid=[m_.id])]
+        if not loops_:
+            cover_ok, cover_why = False, "the snapshot is not filled by a loop over the requested topics"
+            continue
+        lp_ = loops_[-1]
+        ogs = value_origins(cl_, lp_.id, lp_.stmt.iter, params=tuple(ltp.params) + ((vararg,) if vararg else ())) if isinstance(lp_.stmt.iter, ast.Name) else [(lp_.id, lp_.stmt.iter)]
+        for d_, e_ in (ogs or [(None, None)]):
+            from_param = e_ is not None and vararg is not None and vararg in names_in(e_) and not any(
+                isinstance(y, (ast.Yield, ast.Await)) or (isinstance(y, ast.Call) and (call_name(y) or "").startswith("decode_")) for y in ast.walk(e_))
+            if isinstance(e_, ast.Name) and e_.id == vararg and d_ != cl_.entry.id:
+                from_param = False
+            if not from_param:
+                cover_ok, cover_why = False, ("the loop filling the snapshot runs over `%s`, which is not the requested topic names" % norm(e_)) if e_ is not None else (
+                    "the loop filling the snapshot runs over `%s`, which was re-bound since the call (to something that is not the requested topic names)" % norm(lp_.stmt.iter))
+    r.check(cover_ok, "%s#snapshot-covers-requested-topics" % ltp.qname, cover_why, where(ltp, snaps[0][0].stmt if snaps else ltp.node),
+            "a metadata reply leaves out a requested topic (it does not exist yet): the call completes without it, the leader's second "
+            "assignment attempt signals missing partitions again - unhandled - and the group never syncs")
     r.check(oksn, "%s#snapshot-unfiltered" % ltp.qname, "the partition snapshot given to the group leader is not the cached partition list of the topic",
             where(ltp, snaps[0] if snaps else ltp.node), "a momentarily leaderless partition is left out and assigned to nobody for the whole generation")
     gens = [c for n in cj.nodes for c in n.calls() if call_name(c) == "generate_assignments"]
